@@ -60,12 +60,167 @@ def model_value(m, term):
     return str(v)
 
 
+def skolemize_goal(hyps, goal):
+    """forall x. P(x) is proved by proving P(c) for a fresh constant c (and A => forall x. P by assuming A): the universally quantified
+    variables of the goal become constants, so that the per-occurrence theory axioms (Sum, cabs, exp) see ground terms."""
+    hyps = list(hyps)
+    for _ in range(8):
+        if z3.is_quantifier(goal) and goal.is_forall():
+            cs = [z3.Const(f"sk!{goal.var_name(k)}!{goal.get_id()}", goal.var_sort(k)) for k in range(goal.num_vars())]
+            goal = z3.substitute_vars(goal.body(), *reversed(cs))
+        elif z3.is_implies(goal):
+            hyps.append(goal.arg(0))
+            goal = goal.arg(1)
+        else:
+            break
+    return hyps, goal
+
+
+_HO = {}
+
+
+def _higher_order(f):
+    """does the formula contain a lambda term or a Sum application?  (only there does E-matching lack first-order triggers)"""
+    i = f.get_id()
+    if i in _HO:
+        return _HO[i]
+    seen, stack, found = set(), [f], False
+    while stack:
+        t = stack.pop()
+        if t.get_id() in seen:
+            continue
+        seen.add(t.get_id())
+        if z3.is_quantifier(t):
+            if t.is_lambda():
+                found = True
+                break
+            stack.append(t.body())
+        elif z3.is_app(t):
+            if t.decl().name() == "Sum":
+                found = True
+                break
+            stack.extend(t.children())
+    _HO[i] = found
+    return found
+
+
+def skolemize_hyps(hyps):
+    """Hypotheses: a universally quantified subformula in negative position (not under another quantifier) asserts the existence of a
+    counter-example; it is replaced by its body at fresh constants (standard Skolemization, equisatisfiable).  The constants then serve
+    as instantiation points for the positive quantifiers (instantiate_at_skolems)."""
+    changed = [False]
+
+    def sko(f, pos, depth=0):
+        if depth > 6:
+            return f
+        if z3.is_quantifier(f):
+            if ((f.is_forall() and not pos) or (f.is_exists() and pos)) and _higher_order(f):
+                cs = [z3.Const(f"sk!h{f.var_name(k)}!{f.get_id()}", f.var_sort(k)) for k in range(f.num_vars())]
+                changed[0] = True
+                return sko(z3.substitute_vars(f.body(), *reversed(cs)), pos, depth + 1)
+            return f
+        if not z3.is_app(f):
+            return f
+        k = f.decl().kind()
+        if k in (z3.Z3_OP_AND, z3.Z3_OP_OR):
+            kids = [sko(c, pos, depth + 1) for c in f.children()]
+            return z3.And(*kids) if k == z3.Z3_OP_AND else z3.Or(*kids)
+        if k == z3.Z3_OP_NOT:
+            return z3.Not(sko(f.arg(0), not pos, depth + 1))
+        if k == z3.Z3_OP_IMPLIES:
+            return z3.Implies(sko(f.arg(0), not pos, depth + 1), sko(f.arg(1), pos, depth + 1))
+        return f
+
+    out = []
+    for h in hyps:
+        changed[0] = False
+        h2 = sko(h, True)
+        out.append(h2 if changed[0] else h)
+    return out
+
+
+def instantiate_at_skolems(hyps, goal, cap=16):
+    """Goal-directed instantiation: universally quantified hypotheses are additionally instantiated at the Skolem constants of the goal
+    (all combinations of matching sort, a handful).  Sound (instances of hypotheses); needed where the quantifier bodies contain lambda
+    terms (Sum over a lambda), on which E-matching has no first-order trigger."""
+    import itertools
+    sk, loopidx = {}, {}
+    seen, stack = set(), [goal] + [h for h in hyps if not z3.is_quantifier(h)]
+    while stack:
+        t = stack.pop()
+        if t.get_id() in seen:
+            continue
+        seen.add(t.get_id())
+        if z3.is_quantifier(t):
+            stack.append(t.body())
+        elif z3.is_app(t):
+            if t.num_args() == 0 and t.decl().kind() == z3.Z3_OP_UNINTERPRETED:
+                nm = t.decl().name()
+                if nm.startswith("sk!"):
+                    sk.setdefault(t.sort().name(), {})[t.get_id()] = t
+                elif nm.startswith("_k") and z3.is_int(t):
+                    loopidx[t.get_id()] = t          # index of an invariant-cut loop: candidate for one-variable quantifiers only
+            stack.extend(t.children())
+    if not sk and not loopidx:
+        return []
+
+    def instances(q):
+        if q.num_vars() > 3:
+            return None
+        pools = [list(sk.get(q.var_sort(k).name(), {}).values()) for k in range(q.num_vars())]
+        if q.num_vars() == 1 and z3.is_int(z3.Const("x", q.var_sort(0))):
+            pools[0] = pools[0] + list(loopidx.values())
+        if any(not p_ for p_ in pools):
+            return None
+        return [z3.substitute_vars(q.body(), *reversed(combo)) for combo in itertools.islice(itertools.product(*pools), cap)]
+
+    def weaken(f, pos, depth=0):
+        """f with every universally quantified subformula in positive position replaced by the conjunction of its instances at the Skolem
+        constants (f implies the result); None if nothing was replaced"""
+        if depth > 6:
+            return None
+        if z3.is_quantifier(f):
+            if pos and f.is_forall() and _higher_order(f):
+                inst = instances(f)
+                return z3.And(*inst) if inst else None
+            return None
+        if not z3.is_app(f):
+            return None
+        k = f.decl().kind()
+        if k in (z3.Z3_OP_AND, z3.Z3_OP_OR):
+            kids = [weaken(c, pos, depth + 1) for c in f.children()]
+            if all(x is None for x in kids):
+                return None
+            new = [c if x is None else x for c, x in zip(f.children(), kids)]
+            return z3.And(*new) if k == z3.Z3_OP_AND else z3.Or(*new)
+        if k == z3.Z3_OP_NOT:
+            x = weaken(f.arg(0), not pos, depth + 1)
+            return None if x is None else z3.Not(x)
+        if k == z3.Z3_OP_IMPLIES:
+            a, b = weaken(f.arg(0), not pos, depth + 1), weaken(f.arg(1), pos, depth + 1)
+            if a is None and b is None:
+                return None
+            return z3.Implies(f.arg(0) if a is None else a, f.arg(1) if b is None else b)
+        return None
+
+    out = []
+    for h in hyps:
+        w = weaken(h, True)
+        if w is not None:
+            out.append(w)
+    return out
+
+
 def discharge(obl, timeout_ms=10000, want_model=True, use_cvc5=True):
     """-> Result.  status: discharged | failed (counter-model) | unknown | canary-ok | canary-vacuous"""
     t0 = time.time()
     hyps = list(obl.hyps)
     goal = obl.goal
     is_canary = obl.kind == "canary"
+    if not is_canary:
+        hyps, goal = skolemize_goal(hyps, goal)
+        hyps = skolemize_hyps(hyps)
+        hyps = hyps + instantiate_at_skolems(hyps, goal)
     fs = hyps + ([] if is_canary else [z3.Not(goal)])
     ax = lib.theory_axioms(fs)
     size = _formula_size(fs)
